@@ -369,3 +369,33 @@ func tagName(tag, key, def string) (string, bool) {
 	}
 	return def, false
 }
+
+// documentUntouched: the functions between decoding a Spec document and its
+// validation do not write into the decoded document (what is validated, and what
+// the version gate sees, is what the file said). Writes into objects allocated
+// by the function itself (the cdi.Spec wrapper newSpec builds) are not meant.
+func (c *Ctx) documentUntouched(rule string) {
+	r := c.R
+	for _, name := range []string{"ReadSpec", "ParseSpec", "newSpec", "(*Spec).validate", "validateSpec", "newDevice", "(*Device).validate"} {
+		fn := c.U.Func("cdi", name)
+		if fn == nil {
+			continue
+		}
+		var bad []string
+		for _, w := range c.U.EffectsOf(fn).Writes {
+			if _, local := w.Path.Root.(*ssa.Alloc); local && len(w.Path.Sels) <= 1 {
+				continue // a field of a wrapper allocated here
+			}
+			if touches, what := c.touchesSpecMemory(w.Path); touches {
+				// the wrapper's own fields (cdi.Spec.path, .vendor, ...) of a fresh wrapper are fine
+				if _, local := w.Path.Root.(*ssa.Alloc); local && !strings.HasPrefix(what, "specs-go") {
+					continue
+				}
+				if strings.HasPrefix(what, "specs-go") {
+					bad = append(bad, fmt.Sprintf("%s (%s) at %s", w.Path.String(), w.Kind, c.pos(w.Deep)))
+				}
+			}
+		}
+		r.Check(rule, "document-untouched:"+name, len(bad) == 0, c.U.Pos(fn.Pos()), name+" does not modify the decoded Spec document before/while it is validated"+ifMsg(strings.Join(bad, "; ")))
+	}
+}
